@@ -95,10 +95,9 @@ def check(ctx):
     for meth, inner in (('iter_to_dict', 'tract.to_dict(attributes)'), ('iter_to_list', 'tract.to_list(attributes)')):
         fi = tl.methods[meth]
         t = ' '.join(norm(s) for s in walk_local(fi.node) if isinstance(s, ast.stmt))
-        ctx.check(f"for tract in self: yield {inner}" in t.replace('\n', ' ') or (
+        ctx.shape(f"for tract in self: yield {inner}" in t.replace('\n', ' ') or (
             'for tract in self' in t and f"yield {inner}" in t), 'TBL',
-            f"TractList.{meth}: yields one record per tract, in order",
-            detail_bad=f"{meth} changed", key=f"TBL|TractList.{meth}")
+            f"TractList.{meth}: yields one record per tract, in order")
 
     ctx.attempt(_scrubbers)
     ctx.attempt(_writers)
